@@ -68,6 +68,8 @@ func main() {
 			replayChainSync(idx, line, *prop, *seed, root, rep)
 		case "spend":
 			replaySpend(idx, line, *prop, *seed, root, rep)
+		case "addrmgr-wallet":
+			replayAddrWallet(idx, line, *prop, *seed, root, rep)
 		case "recovery-branch":
 			replayBranch(idx, line, rep)
 		case "recovery-birthday":
